@@ -80,9 +80,14 @@ def strategy(tier: str):
     )
 
 
+def opt_cases(tier: str):
+    """Cases also executed by an interpreter started with -O (see vf/optpass.py)."""
+    return drive.opt_sweep_cases(tier)
+
+
 def enumerate_cases(tier: str):
     # one event of every kind under every environment dimension (transport kind, logging, warnings, a bystander gateway, registry file, ...)
-    yield from drive.env_sweep_cases()
+    yield from drive.all_sweep_cases()
     for version in ("1.4", "2.2"):
         for ids in ([], [1, 2, 3], [0, 5, 250]):
             for listeners in (2, 3):
